@@ -354,6 +354,7 @@ def _mutants():
     from selftest.mutate import Mutant as M
     L = "_lm.py"
     return [
+        M("strided-view-absolute-offset", "_lm.py", "hist.storage_offset() + B * (t - Nm1)", "B * (t - Nm1)", "strided-view-offset-relative-to-receiver"),
         M("drop-int-widening", L, "parent = int(parents[prefix]) + last_start", "parent = parents[prefix] + last_start",
           "unsigned-scalar-decremented"),
         M("kernel-N-G-swapped", L, "self.vocab_size, self.max_ngram, self.max_ngram_nodes, self.max_direct_descendants)",
